@@ -184,6 +184,17 @@ class Mode:
         if self.symbolic:
             from . import alg, sym as S
 
+            if isinstance(got, (S.SymNaN, S.SymInf)):
+                ex = getattr(self, "explorer", None)
+                model = None
+                if ex is not None and ex.pc:
+                    from . import paths as P
+
+                    r, model, dt = P.check_sat(ex.fixed + P.pc_formulas(ex.pc))
+                    if r == "unsat":
+                        return self._rec(name, "discharged", "z3", dt, detail="path infeasible", vacuous=True)
+                return self._rec(name, "failed", "run", time.time() - t, cex={"env": model or {}},
+                                 detail="the code produces %s (a division by an exact zero) where a finite value is specified" % type(got).__name__)
             g, e = S.lift(got), S.lift(exp)
             vg, ve = S.expand(g), S.expand(e)
             ok = alg.v_equal(vg, ve)
@@ -295,6 +306,10 @@ class Mode:
             r, model, dt = P.check_sat(path.formulas() + [cond])
             if r == "unsat":
                 return self._rec(name, "discharged", "z3", dt, detail="case cannot occur on this path", vacuous=True)
+            if isinstance(got, S.SymNaN):
+                if r == "sat":
+                    return self._rec(name, "failed", "z3", dt, cex={"env": model}, detail="the code produces nan (0/0) on a feasible case")
+                return self._rec(name, "undecided", "z3", dt, detail="nan on a case of unknown feasibility")
             if isinstance(got, S.SymInf) or isinstance(exp, S.SymInf):
                 return self._rec(name, "undecided", "-", dt, detail="infinite value on a feasible case")
             vg, ve = S.expand(S.lift(got)), S.expand(S.lift(exp))
